@@ -140,6 +140,39 @@ fn tampered<const N: usize>(seed: u64) {
         let honest = b.generate_proof_response(c);
         let l = atoms::layout(&honest);
         let (bytes, at) = atoms::symbolize_layout(&l, "P");
+        if k == 0 {
+            // a request arriving on the wire with one atom replaced by a non-canonical scalar or a curve point outside
+            // the prime-order group (e.g. the commitment shifted by a small-order point) must yield no value at all
+            let mut accepted = vec![];
+            for a in &at {
+                let bad = match a.kind {
+                    sx::K_SCALAR => sx::K_BAD_SCALAR,
+                    sx::K_G1 => sx::K_BAD_G1,
+                    sx::K_G2 => sx::K_BAD_G2,
+                    _ => continue,
+                };
+                let mut b3 = bytes.clone();
+                sx::write_token(&mut b3[a.off..a.off + a.width], bad, a.id);
+                sx::set_label("decode-bad");
+                if let Some(p) = decode::<SignatureRequestProof<N>>(&b3) {
+                    sx::set_force(Some(true));
+                    let r = p.verify_knowledge_of_opening(kp.public_key(), c).is_some();
+                    sx::set_force(None);
+                    if r {
+                        accepted.push(a.path.clone());
+                    }
+                }
+            }
+            if !accepted.is_empty() {
+                eng::finding(
+                    &format!("C08 invalid-encoding-yields-blind-signable N={}", N),
+                    &format!("N={}: a request whose {:?} is an out-of-group / non-canonical encoding decodes and can yield a blind-signable value", N, accepted),
+                    None,
+                    json!({"kind":"model"}),
+                );
+            }
+            sx::set_label("");
+        }
         if k < at.len() {
             let a = at[k].clone();
             let mut b2 = bytes.clone();
